@@ -10,6 +10,8 @@ ApiAppendRejected(c) == AppendEpochRejected(c) /\ UNCHANGED params
 ApiSampleNext        == SampleNextBegin /\ UNCHANGED params
 ApiSampleNextRaises  == SampleNextRejected /\ UNCHANGED params
 ApiSampleAll         == SampleAllBegin /\ UNCHANGED params
+ApiSampleStuck       == SampleStuck /\ UNCHANGED params
+IChunkMismatch == ChunkMismatch /\ UNCHANGED params
 IStartEpoch == StartEpoch /\ UNCHANGED params
 IInitialValues == InitialValues /\ UNCHANGED params
 IPreStart == PreStart /\ UNCHANGED params
@@ -29,7 +31,7 @@ Init == /\ K \in Ks /\ J \in Js /\ NeedsHist \in {h \in Hists : h \subseteq 1..K
         /\ EInit
 Next == \/ \E c \in Alphabet : ApiAppend(c)
         \/ \E c \in Alphabet : ApiAppendRejected(c)
-        \/ ApiSampleNext \/ ApiSampleNextRaises \/ ApiSampleAll
+        \/ ApiSampleNext \/ ApiSampleNextRaises \/ ApiSampleAll \/ ApiSampleStuck \/ IChunkMismatch
         \/ IStartEpoch \/ IInitialValues \/ IPreStart \/ IChunkBegin \/ IIterEnd
         \/ IChunkAppend \/ IPreEnd \/ IPreTune \/ IFinish \/ IReturn
         \/ IEndWarmup \/ IKStart \/ ITransition \/ IKEnd \/ ITune
